@@ -1,0 +1,30 @@
+//go:build verif
+
+// Contracts for the ring client's shortcuts (C13), checked by /verif/govc (comment-only file).
+
+package ring
+
+//@ # what the derived indexes of a ring client depend on: everything except State, Timestamp (and Versions / Id)
+//@ pred sameTopology(a InstanceDesc, b InstanceDesc) = a.Addr == b.Addr && a.Zone == b.Zone && a.RegisteredTimestamp == b.RegisteredTimestamp &&
+//@      a.ReadOnly == b.ReadOnly && a.ReadOnlyUpdatedTimestamp == b.ReadOnlyUpdatedTimestamp && a.Tokens == b.Tokens
+//@
+//@ func Desc.RingCompare
+//@   property C13
+//@   option nilable d o
+//@   ensures  topology: (result == Equal || result == EqualButStatesAndTimestamps) && d != nil && o != nil ==>
+//@              len(d.Ingesters) == len(o.Ingesters) &&
+//@              (forall n string :: in(n, d.Ingesters) ==> in(n, o.Ingesters) && sameTopology(d.Ingesters[n], o.Ingesters[n]))
+//@   ensures  states: result == Equal && d != nil && o != nil ==> (forall n string :: in(n, d.Ingesters) ==> d.Ingesters[n].State == o.Ingesters[n].State && d.Ingesters[n].Timestamp == o.Ingesters[n].Timestamp)
+//@   ensures  range: result == Equal || result == EqualButStatesAndTimestamps || result == Different
+//@   loop 0 invariant forall n string :: $visited[n] ==> in(n, o.Ingesters) && sameTopology(d.Ingesters[n], o.Ingesters[n])
+//@   loop 0 invariant equalStatesAndTimestamps ==> (forall n string :: $visited[n] ==> d.Ingesters[n].State == o.Ingesters[n].State && d.Ingesters[n].Timestamp == o.Ingesters[n].Timestamp)
+//@   loop 1 invariant len(ing.Tokens) == len(oing.Tokens) && (forall j int :: 0 <= j && j < $i ==> oing.Tokens[j] == ing.Tokens[j])
+//@   loop 1 invariant forall n string :: $visited0[n] && n != $k0 ==> in(n, o.Ingesters) && sameTopology(d.Ingesters[n], o.Ingesters[n])
+//@   loop 1 invariant equalStatesAndTimestamps ==> (forall n string :: $visited0[n] && n != $k0 ==> d.Ingesters[n].State == o.Ingesters[n].State && d.Ingesters[n].Timestamp == o.Ingesters[n].Timestamp)
+//@   loop 1 invariant same(ing, d.Ingesters[$k0]) && same(oing, o.Ingesters[$k0]) && ok && in($k0, o.Ingesters) && $visited0[$k0]
+//@   loop 1 invariant ing.Addr == oing.Addr && ing.Zone == oing.Zone && ing.RegisteredTimestamp == oing.RegisteredTimestamp && ing.ReadOnly == oing.ReadOnly && ing.ReadOnlyUpdatedTimestamp == oing.ReadOnlyUpdatedTimestamp
+//@   modifies nothing
+//@
+//@ # Every field of a ring entry is compared by RingCompare (a difference rebuilds the indexes and drops the caches),
+//@ # refreshed on every cache hit, or determined by the map key.
+//@ fieldpartition InstanceDesc compared Desc.RingCompare refreshed Ring.getCachedShuffledSubring Ring.getCachedShuffledSubringWithLookback keyed Id property C13
